@@ -261,8 +261,111 @@ def gen_handler(ch: Choices, allow_reentrant: bool) -> Optional[tuple]:
     return ("register", ch.choice(MAX_PROMISES, "register-on"))
 
 
+# ---------------------------------------------------------------------------
+# In-situ monitor: the same invariants on every promise a simulated scheduler run creates.
+# ---------------------------------------------------------------------------
+
+
+class PromiseMonitor:
+    """Wraps Promise.then / do_resolve / do_reject for the duration of a scheduler run (recording
+    only: handlers are called through, results untouched)."""
+
+    def __init__(self) -> None:
+        self.regs: list = []      # [promise, seq, has_f, has_r, fired_f, fired_r, fired_while_pending]
+        self.settled: dict = {}   # id(promise) -> (promise, kind, value)
+        self.problems: list = []
+        self.order: dict = {}     # id(promise) -> last fired registration seq
+        self.ignored = 0
+        self.notifying: set = set()
+        self.reentrant: set = set()
+
+    def __enter__(self):
+        from redun.promise import Promise
+
+        self.P = Promise
+        self.orig = (Promise.then, Promise.do_resolve, Promise.do_reject)
+        mon = self
+        o_then, o_res, o_rej = self.orig
+
+        def then(p, resolver=None, rejector=None):
+            rec = [p, len(mon.regs), resolver is not None, rejector is not None, 0, 0, False]
+            mon.regs.append(rec)
+            if id(p) in mon.notifying:
+                mon.reentrant.add(id(p))
+
+            def wrap(fn, idx):
+                if fn is None:
+                    return None
+
+                def w(x):
+                    rec[idx] += 1
+                    if p.is_pending:
+                        rec[6] = True
+                    last = mon.order.get(id(p), -1)
+                    if rec[1] < last and id(p) not in mon.reentrant:
+                        mon.problems.append(("order", "callback fired after a later registration's",
+                                             rec[1], last))
+                    mon.order[id(p)] = max(last, rec[1])
+                    want = p.is_fulfilled if idx == 4 else p.is_rejected
+                    if not want:
+                        mon.problems.append(("wrong-handler", "fulfil" if idx == 4 else "reject", rec[1]))
+                    return fn(x)
+
+                return w
+
+            return o_then(p, wrap(resolver, 4), wrap(rejector, 5))
+
+        def settle(orig, kind):
+            def f(p, v):
+                first = mon.settled.get(id(p))
+                if first is None and p.is_pending:
+                    mon.settled[id(p)] = (p, kind, v)
+                elif first is not None:
+                    mon.ignored += 1
+                mon.notifying.add(id(p))
+                try:
+                    r = orig(p, v)
+                finally:
+                    mon.notifying.discard(id(p))
+                fp, fk, fv = mon.settled.get(id(p), (p, kind, v))
+                now = "f" if p.is_fulfilled else "r" if p.is_rejected else "p"
+                cur = p._value if now == "f" else p._error
+                if now != fk or cur is not fv:
+                    mon.problems.append(("first-settlement-lost", fk, now))
+                return r
+
+            return f
+
+        Promise.then = then
+        Promise.do_resolve = settle(o_res, "f")
+        Promise.do_reject = settle(o_rej, "r")
+        return self
+
+    def __exit__(self, *a):
+        self.P.then, self.P.do_resolve, self.P.do_reject = self.orig
+
+    def finish(self) -> list:
+        """End-of-run obligations: settled => every registered callback of the matching kind fired
+        exactly once and the other kind never; pending => none fired."""
+        probs = list(self.problems)
+        for p, seq, has_f, has_r, ff, fr, early in self.regs:
+            if early:
+                probs.append(("fired-before-settlement", seq))
+            if p.is_pending:
+                if ff or fr:
+                    probs.append(("fired-on-pending", seq))
+                continue
+            want_f = 1 if (p.is_fulfilled and has_f) else 0
+            want_r = 1 if (p.is_rejected and has_r) else 0
+            if (ff, fr) != (want_f, want_r):
+                kind = "twice" if (ff > want_f or fr > want_r) else "never"
+                probs.append((f"callback-{kind}", seq, (ff, fr), (want_f, want_r)))
+        return probs
+
+
 class C13(Check):
     PROPERTY = "C13"
+    USES_TEMPLATE_DB = True
     RULE = (
         "seeded histories of <= 25 operations (create with/without executor function, then/catch "
         "registration before or after settlement, do_resolve/do_reject incl. re-entrant calls "
@@ -270,17 +373,72 @@ class C13(Check):
         "promises, Promise.all, wait_promises) applied to redun.promise.Promise and to a reference "
         "promise; states, values and per-promise callback sequences are compared after every "
         "operation; a case is an operation history; non-trivial = at least one callback fired "
-        "and one settlement was ignored or one promise was adopted"
+        "and one settlement was ignored or one promise was adopted. One run in four instead "
+        "monitors the same invariants (settle once, first settlement wins, each registered "
+        "callback exactly once, after settlement, in registration order, right handler kind) on "
+        "every promise created by the real scheduler while it runs a generated program under a "
+        "seeded completion schedule (non-trivial there = two jobs in flight)"
     )
     ASSUMPTIONS = ["single-threaded use, as in the scheduler (the promise is not thread-safe by "
                    "design)"]
-    COMPONENTS_REAL = ["redun.promise.Promise", "redun.promise.wait_promises"]
+    COMPONENTS_REAL = ["redun.promise.Promise", "redun.promise.wait_promises",
+                       "redun.scheduler.Scheduler + LocalExecutor + RedunBackendDb (scheduler part)"]
     COMPONENTS_STUB = ["callbacks: symbolic handlers interpreted identically on both sides"]
     EXPECTED_PROBES = ["callbacks_fired", "second_settlements_ignored", "adoptions",
-                       "reentrant_histories"]
+                       "reentrant_histories", "scheduler_runs", "scheduler_callbacks_fired"]
     QUICK_SECONDS = 20.0
 
+    def setup(self) -> None:
+        import logging
+        import warnings
+
+        from simkit import schedsim
+
+        logging.disable(logging.CRITICAL)
+        warnings.filterwarnings("ignore", category=RuntimeWarning)
+        schedsim.template_db()
+
+    def begin_case(self) -> None:
+        from simkit import schedsim
+
+        schedsim.reset_generation()
+
+    def run_scheduler(self, ch: Choices) -> RunOutcome:
+        """Part 2: the invariants, monitored on every promise of a simulated scheduler run."""
+        from simkit import enginea
+        from simkit.progs import ALL_FEATURES, Gen, GenConfig, emit
+
+        out = RunOutcome()
+        cfg = GenConfig(features=set(ALL_FEATURES), p_error=0.4,
+                        multi_error=bool(ch.choice(3, "multi-error") == 2),
+                        modes=("thread", "thread", "process", "async"), p_dup=0.2, max_tasks=7)
+        prog = Gen(ch, cfg).generate()
+        with enginea.ProgramSession(prog) as sess:
+            with PromiseMonitor() as mon:
+                res = enginea.simulate(ch, prog, session=sess)
+        w = res.world
+        probs = mon.finish()
+        out.probe("scheduler_runs")
+        out.probe("scheduler_promises", len({id(r[0]) for r in mon.regs}))
+        out.probe("scheduler_callbacks_fired", sum(r[4] + r[5] for r in mon.regs))
+        out.probe("second_settlements_ignored", mon.ignored)
+        out.steps = w.steps
+        out.sim_time = w.clock.elapsed
+        out.nontrivial = w.max_inflight >= 2 and bool(mon.regs)
+        out.key = prog.key() + "/" + w.sched_sig.hexdigest()[:12]
+        out.digest = w.digest()[:24]
+        if probs:
+            out.violate("C13.scheduler_promises", str(probs[0][0]),
+                        {"problems": [repr(x) for x in probs[:5]],
+                         "program": emit(prog)[-1500:], "outcome": repr(res.outcome)[:200]})
+        out.sample = {"part": "scheduler", "registrations": len(mon.regs),
+                      "settled": len(mon.settled), "ignored_settlements": mon.ignored,
+                      "program": emit(prog)[-800:]}
+        return out
+
     def run_one(self, ch: Choices) -> RunOutcome:
+        if ch.choice(4, "part") == 3:
+            return self.run_scheduler(ch)
         out = RunOutcome()
         REENTRANT["seen"] = False
         reentrant = ch.choice(3, "reentrant-mode") == 2
